@@ -260,7 +260,7 @@ def gen_two_lcds(tier: str) -> Iterator[dict]:
 def progress_script(cols: int, label: Optional[str], use_width: bool) -> str:
     lab = f', label="{label}"' if label is not None else ""
     wid = ", width=w" if use_width else ""
-    body = ['v = analog_read("A0") - 10', 'm = analog_read("A1")', 'w = analog_read("A2")',
+    body = ['v = analog_read("A0") - 10', 'm = analog_read("A1") - 5', 'w = analog_read("A2") - 5',
             f'lcd.progress(0, v, max_value=m{wid}, style="hash"{lab})', 'mon.write("g")']
     return common.script([decl("parallel", cols, 2)], body, prologue=PRO)
 
@@ -275,10 +275,20 @@ def gen_progress(tier: str) -> Iterator[dict]:
                     for v in range(-1, m + 2):
                         for w in (range(1, cols + 1) if use_width else [0]):
                             tuples.append((v, m, w))
+                # an empty / negative range, and explicit widths outside 1..cols (clamped like the host clamps them)
+                for m in (0, -2):
+                    for v in (-1, 0, 1, 5):
+                        for w in ((1, cols) if use_width else [0]):
+                            tuples.append((v, m, w))
+                if use_width:
+                    for w in (0, -1, -4, cols + 1, cols + 5):
+                        for m in (1, 4, 7):
+                            for v in range(-1, m + 2):
+                                tuples.append((v, m, w))
                 runs = []
                 for i in range(0, len(tuples), 3000):
                     ch = tuples[i : i + 3000]
-                    runs.append({"passes": len(ch), "lcdquiet": 1, "maxev": 2000000, "ar": {"A0": [t[0] + 10 for t in ch], "A1": [t[1] for t in ch], "A2": [t[2] for t in ch]}, "tuples": ch})
+                    runs.append({"passes": len(ch), "lcdquiet": 1, "maxev": 2000000, "ar": {"A0": [t[0] + 10 for t in ch], "A1": [t[1] + 5 for t in ch], "A2": [t[2] + 5 for t in ch]}, "tuples": ch})
                 yield {"id": f"G:{cols}:{label}:{use_width}", "space": "G", "src": progress_script(cols, label, use_width), "runs": runs, "geom": [cols, 2], "label": label, "use_width": use_width}
 
 
@@ -296,7 +306,7 @@ def gen_progress_divisible(tier: str) -> Iterator[dict]:
         runs = []
         for i in range(0, len(tuples), 3000):
             ch = tuples[i : i + 3000]
-            runs.append({"passes": len(ch), "lcdquiet": 1, "maxev": 2000000, "ar": {"A0": [t[0] + 10 for t in ch], "A1": [t[1] for t in ch], "A2": [t[2] for t in ch]}, "tuples": ch})
+            runs.append({"passes": len(ch), "lcdquiet": 1, "maxev": 2000000, "ar": {"A0": [t[0] + 10 for t in ch], "A1": [t[1] + 5 for t in ch], "A2": [t[2] + 5 for t in ch]}, "tuples": ch})
         yield {"id": f"G:div:{cols}", "space": "G", "src": progress_script(cols, None, True), "runs": runs, "geom": [cols, 2], "label": None, "use_width": True}
 
 
@@ -312,7 +322,12 @@ def progress_judge(case, run, dr, hr) -> Optional[str]:
     label = case["label"]
     last: Dict[Tuple[int, int], int] = {}
     for (v, m, w), drow, hrow in zip(tuples, dev_rows, host_rows):
-        width = w if case["use_width"] else cols
+        width = max(1, min(cols, w)) if case["use_width"] else cols  # (the host's own clamping of an explicit width)
+        if m <= 0:
+            # nothing can be filled of an empty range
+            if drow.count("#") or hrow.count("#"):
+                return f"progress({v}, max={m}, width={width}): an empty range must draw an empty bar; host {hrow!r}, device {drow!r}"
+            continue
         prefix = (label + " ") if label else ""
         if len(drow) != cols:
             return f"device row has {len(drow)} cells"
